@@ -158,6 +158,45 @@ def withCtx (j libs cal m : Sexp) (k : JarDesc → List JarDesc → Mappings →
   pure (if !acyclic (jar :: libs) then .skip "cyclic" else
     if !remappedAcyclic (jar :: libs) cal then .skip "cyclic" else k jar libs cal m)
 
+/-- the pairs the property text selects (`IsBridgePair`, evaluated declaratively), in the order of the method table -/
+def ownPairs (idx : Index) : List (MRef × MRef) :=
+  let anc := fun c => (ancestors idx FUEL c).getD []
+  idx.methods.filterMap fun (b, _) =>
+    match AList.lookup b idx.refs with
+    | some (s :: _) => if isBridgePairB idx anc b s then some (b, s) else none
+    | _ => none
+
+/-- `oracle-only-delegate` (`own = false`: the pairs are the ones the selection loop produced) and
+`oracle-delegate-named` (`own = true`: the pairs are the bridge pairs of the property text): frame and effect of the
+insertion evaluated on the result -/
+def delegateOracle (own : Bool) (jar : JarDesc) (libs : List JarDesc) (cal m : Mappings) : Ans :=
+  match setup jar libs cal m with
+  | none => .ok (tag "out-of-domain")
+  | some su =>
+    match select (ofJar jar) FUEL with
+    | none => .skip "fuel"
+    | some st =>
+      let interC := mapRef su.calamus su.supC FUEL
+      let namedN := mapRefName su.named su.supN FUEL
+      if !(st.1.all fun p => (interC p.1).isSome && (interC p.2).isSome) then .skip "fuel" else
+      -- the domain: the real function succeeds
+      match remapPairs (fun r => (interC r).join) st.1 [] with
+      | none => .ok (tag "out-of-domain")
+      | some ps =>
+        if !(ps.all fun p => (namedN p.1).isSome) then .skip "fuel" else
+        let namedOf := fun r => (namedN r).join
+        match applyPairs namedOf ps m with
+        | none => .ok (tag "out-of-domain")
+        | some r =>
+          if !own then oracleOnlyDelegate namedOf ps m r else
+          let sel := ownPairs (ofJar jar)
+          if !(sel.all fun p => (interC p.1).isSome && (interC p.2).isSome) then .skip "fuel" else
+          match remapPairs (fun r => (interC r).join) sel [] with
+          | none => .ok (tag "out-of-domain")
+          | some ps' =>
+            if !(ps'.all fun p => (namedN p.1).isSome) then .skip "fuel" else
+            oracleOnlyDelegate namedOf ps' m r
+
 def handleC15 (op : String) (args : List Sexp) : Option Ans :=
   match op, args with
   | "bridges", [j] => do
@@ -179,24 +218,9 @@ def handleC15 (op : String) (args : List Sexp) : Option Ans :=
       | some none => .err "e"
       | some (some r) => .ok (mappingsTo r)
   | "oracle-only-delegate", [j, libs, cal, m] =>
-    withCtx j libs cal m fun jar libs cal m =>
-      match setup jar libs cal m with
-      | none => .ok (tag "out-of-domain")
-      | some su =>
-        match select (ofJar jar) FUEL with
-        | none => .skip "fuel"
-        | some st =>
-          let interC := mapRef su.calamus su.supC FUEL
-          let namedN := mapRefName su.named su.supN FUEL
-          if !(st.1.all fun p => (interC p.1).isSome && (interC p.2).isSome) then .skip "fuel" else
-          match remapPairs (fun r => (interC r).join) st.1 [] with
-          | none => .ok (tag "out-of-domain")
-          | some ps =>
-            if !(ps.all fun p => (namedN p.1).isSome) then .skip "fuel" else
-            let namedOf := fun r => (namedN r).join
-            match applyPairs namedOf ps m with
-            | none => .ok (tag "out-of-domain")
-            | some r => oracleOnlyDelegate namedOf ps m r
+    withCtx j libs cal m fun jar libs cal m => delegateOracle false jar libs cal m
+  | "oracle-delegate-named", [j, libs, cal, m] =>
+    withCtx j libs cal m fun jar libs cal m => delegateOracle true jar libs cal m
   | _, _ => none
 
 def main : IO Unit := Driver.run handleC15
